@@ -208,6 +208,7 @@ func genSpec(ch *simrt.Chooser, consistent bool) (*tls.ClientHelloSpec, string) 
 	// boundary stratum (free-form specs only): one list-valued extension is blown up to the limit of
 	// its length prefix or beyond it. At the limit the hello must still be well formed; beyond it
 	// the spec cannot be encoded and building must fail - never a hello with a wrapped length.
+	npnBehind := false
 	if !consistent && ch.Bool(12, "oversize") {
 		which := ch.Pick(5, "oversize-ext")
 		for _, e := range exts {
@@ -251,6 +252,9 @@ func genSpec(ch *simrt.Chooser, consistent bool) (*tls.ClientHelloSpec, string) 
 						// an empty protocol name (ProtocolName<1..2^8-1>) cannot be encoded
 						x.AlpnProtocols = []string{"h2", "", "http/1.1"}
 						desc = append(desc, "alpn-empty-name")
+						// (a next_protocol_negotiation extension behind it replaces Config.NextProtos, which
+						// is what the handshake-time validation looks at)
+						npnBehind = ch.Bool(50, "npn-behind-alpn")
 					case 4:
 						// names that are fine one by one, a list beyond its 16-bit length
 						nn := []int{257, 262, 300}[ch.Pick(3, "alpn-names")]
@@ -266,6 +270,18 @@ func genSpec(ch *simrt.Chooser, consistent bool) (*tls.ClientHelloSpec, string) 
 					}
 				}
 			}
+		}
+	}
+	if npnBehind {
+		has := false
+		for _, e := range exts {
+			if _, ok := e.(*tls.NPNExtension); ok {
+				has = true
+			}
+		}
+		if !has {
+			exts = append(exts, &tls.NPNExtension{})
+			desc = append(desc, "npn")
 		}
 	}
 	// order: a drawn rotation + optional swaps, then GREASE first/last and padding at the end
